@@ -95,6 +95,56 @@ std::string run_exec_cnt(const Cmd& c){
     return out;
 }
 
+//   execcnttsm d per H B mode stop nsplit m.. Ns nums Nt nums : the same on the target/source executor
+// output: dumpSource || dumpTarget || trace || K counters per copy || F || B || R values of the targets
+template <long D, bool Per>
+std::string run_exec_cnt_tsm(const Cmd& c){
+    using Conf = TbfSpacialConfiguration<double, D>;
+    using Space = TbfMortonSpaceIndex<D, Conf, Per>;
+    using Tree = TbfTreeTsm<double, double, D, unsigned long, 1, TagVal, TagVal, Space>;
+    using Kernel = TbfInteractionCounter<TraceKernel<double, Space>>;
+    using Algo = TbfAlgorithmTsm<double, Kernel, Space>;
+    using Counters = typename Kernel::ReduceType;
+    const long H = c.L(3), B = c.L(4), mode = c.L(5), stop = c.L(6), nf = c.L(7);
+    std::vector<int> masks; size_t a = 8;
+    for(long k = 0 ; k < nf ; ++k) masks.push_back(int(c.L(a++)));
+    std::array<double, D> w, ctr; for(long k = 0 ; k < D ; ++k){ w[k] = 1; ctr[k] = 0.5; }
+    Conf conf(H, w, ctr);
+    const double scale = 16.0 * double(1L << (H-1));
+    const long Ns = c.L(a++);
+    std::vector<std::array<double, D>> ps(Ns);
+    for(long i = 0 ; i < Ns ; ++i) for(long k = 0 ; k < D ; ++k) ps[i][k] = double(c.L(a++)) / scale;
+    const long Nt = c.L(a++);
+    std::vector<std::array<double, D>> pt(Nt);
+    for(long i = 0 ; i < Nt ; ++i) for(long k = 0 ; k < D ; ++k) pt[i][k] = double(c.L(a++)) / scale;
+    Tree tree(conf, ps, pt, B < 0 ? -1 : B, mode != 0);
+    tree.applyToAllCellsSource([](long level, auto&& h, auto&& m, auto&&){ if(m){ m->get().tagLevel1 = level + 1; m->get().tagIndex = h.spaceIndex; } });
+    tree.applyToAllCellsTarget([](long level, auto&& h, auto&&, auto&& l){ if(l){ l->get().tagLevel1 = level + 1; l->get().tagIndex = h.spaceIndex; } });
+    TraceSink sink; trace_sink() = &sink;
+    std::string out = dump_parts(H, [&](long l) -> const auto& { return tree.getCellGroupsAtLevelSource(l); }, tree.getParticleGroupsSource());
+    out += " || " + dump_parts(H, [&](long l) -> const auto& { return tree.getCellGroupsAtLevelTarget(l); }, tree.getParticleGroupsTarget());
+    std::vector<Counters> copies;
+    for(int m : masks){
+        std::unique_ptr<Algo> algo(new Algo(conf, stop));
+        algo->execute(tree, m);
+        algo->applyToAllKernels([&](const auto& k){ copies.push_back(k.getReduceData()); });
+    }
+    auto cs = [](const Counters& k){ return std::to_string(k.P2M) + " " + std::to_string(k.M2M) + " " + std::to_string(k.M2L) + " " + std::to_string(k.L2L)
+                                        + " " + std::to_string(k.L2P) + " " + std::to_string(k.P2P) + " " + std::to_string(k.P2PInner); };
+    out += " || " + join_trace(sink) + " || K ";
+    for(size_t k = 0 ; k < copies.size() ; ++k) out += (k ? " | " : "") + cs(copies[k]);
+    Counters f, b;
+    for(size_t k = 0 ; k < copies.size() ; ++k) f = Counters::Reduce(f, copies[k]);
+    for(size_t k = copies.size() ; k-- > 0 ; ) b = Counters::Reduce(b, copies[k]);
+    std::vector<std::pair<long, unsigned long>> r;
+    tree.applyToAllLeavesTarget([&](auto&& h, const long* idx, auto&&, auto&& rhs){ for(long p = 0 ; p < h.nbParticles ; ++p) r.push_back({idx[p], rhs[0][p]}); });
+    std::sort(r.begin(), r.end());
+    out += " || F " + cs(f) + " || B " + cs(b) + " || R";
+    for(auto& kv : r) out += " " + std::to_string(kv.first) + "=" + std::to_string(kv.second);
+    trace_sink() = nullptr;
+    return out;
+}
+
 #endif // FAMILY_CNT
 #ifdef FAMILY_PER
 // ---- periodic four-step sequence with the top tree ----
@@ -268,6 +318,14 @@ int main(int argc, char** argv){
 #endif
         const long d = c.L(1); const bool per = c.L(2) != 0;
 #ifdef FAMILY_CNT
+        if(c.tok[0] == "execcnttsm"){
+            switch(d*2 + (per?1:0)){
+            case 2: return run_exec_cnt_tsm<1,false>(c);
+            case 4: return run_exec_cnt_tsm<2,false>(c);
+            case 6: return run_exec_cnt_tsm<3,false>(c);
+            }
+            return "?dim";
+        }
         if(c.tok[0] == "execcnt"){
             switch(d*2 + (per?1:0)){
             case 2: return run_exec_cnt<1,false>(c);
